@@ -191,7 +191,8 @@ def one(lane, mut, scale, workers):
         if failed or 'error' in out or 'test result' not in out:
             res.update(verdict='killed_by_repo_tests', tests_failed=failed)
             return res
-        rest = [c for c in ALL if c not in ids]
+        # full scale: the mapped checks (all 18 with AUTOMUT_ALL=1)
+        rest = [c for c in ALL if c not in ids] if os.environ.get('AUTOMUT_ALL') else []
         k, line = run_checks(W, ids + rest, 100, xenv)
         if k:
             res.update(verdict='killed_full', by=k, report=line)
